@@ -60,7 +60,7 @@ def mon_limits(ri):
         from ..common import unhex
         T, q = unhex(ri.sp["maxtime"]), unhex(ri.sp["clockq"])
         allc = len(ri.run.calls)
-        if ri.ret == 6 and allc * q < T:
+        if ri.ret == 6 and allc * q < T * (1 - 1e-9):
             return ({"alg": ri.name, "cause": "MAXTIME_REACHED before maxtime elapsed"}, "%s: MAXTIME_REACHED at virtual time %g < %g" % (ri.name, allc * q, T))
         b = allowed(ri)
         if q > 0 and T > 0 and b is not None and N <= 0 and oc > math.ceil(T / q) + b + 1:
@@ -128,6 +128,7 @@ def run(ctx):
                     p = problems.gen_problem(rng, A, alg_name=nm, maxeval=N)
                     p.pop("maxtime", None)
                     p.pop("clockq", None)
+                    p.pop("clock0", None)
                     p["obj"] = rng.choice([0, 1, 2, 3, 4, 5])
                     if rng.random() < 0.15:
                         p["inj"] = "%d:%s" % (rng.randrange(1, N + 2), rng.choice(["7ff8000000000000", "7ff0000000000000", "fff0000000000000", hexd(1e300)]))
@@ -136,6 +137,8 @@ def run(ctx):
                 p = problems.gen_problem(rng, A, alg_name=nm, maxeval=0)
                 p["maxtime"] = rng.choice([0.5, 3.0, 10.0])
                 p["clockq"] = rng.choice([0.1, 1.0])
+                if rng.random() < 0.5:
+                    p["clock0"] = rng.choice([8.0, 1024.0])
                 p.pop("stopval", None)
                 p["ftol_rel"] = 0.0
                 p.pop("xtol_rel", None)
